@@ -214,3 +214,84 @@ func vh_C02_subscribe_e2e() {
 	vCover(len(res.Publications) == 2, "e2e-recovered-two")
 	vCover(len(res.Publications) == 0, "e2e-recovered-at-top")
 }
+
+// ---------------------------------------------------------------------------
+// Two overlapping recoveries with Config.UseSingleFlight: connection B's
+// subscribe is issued while connection A's history read for the same channel
+// and offset is in flight, so B may share A's read. Each connection presents
+// its own epoch (none / current / foreign) and its reply must be right for
+// ITS request.
+func vh_C02_singleflight_two_recoveries() {
+	n := vNewNode(Config{UseSingleFlight: true})
+	n.OnConnect(func(c *Client) {
+		c.OnSubscribe(func(e SubscribeEvent, cb SubscribeCallback) {
+			cb(SubscribeReply{Options: SubscribeOptions{EnableRecovery: true}}, nil)
+		})
+	})
+	const ch = "che2e"
+	c := vE2EBuild(n, ch)
+	hb := vInstallHookBroker(n)
+	var cls [2]*Client
+	var trs [2]*vTransport
+	for i := range cls {
+		trs[i] = vNewTransport()
+		cls[i] = vNewClient(n, string([]byte{'u', byte('1' + i)}), trs[i])
+		if !vConnect(cls[i]) {
+			vFail("sf: connect")
+		}
+	}
+	vSettle()
+	off := vU64("offset")
+	vAssume(off <= c.top)
+	var eks [2]int
+	var epochs [2]string
+	for i := range eks {
+		eks[i] = vChoice("epoch", 3)
+		switch eks[i] {
+		case 1:
+			epochs[i] = c.epoch
+		case 2:
+			epochs[i] = "FOREIGN!"
+		}
+	}
+	sub := func(i int) {
+		ok := cls[i].HandleCommand(&protocol.Command{Id: 2, Subscribe: &protocol.SubscribeRequest{Channel: ch, Recover: true, Offset: off, Epoch: epochs[i]}}, 0)
+		vAssert(ok, "sf: subscribe command handled")
+	}
+	joined := false
+	hb.beforeHistory = func() {
+		// A's read is in flight: B subscribes now
+		go sub(1)
+		vSettle()
+		joined = true
+	}
+	hb.armed = true
+	sub(0)
+	hb.armed = false
+	vSettle()
+	vAssert(joined, "sf: second subscribe issued inside the first one's history read")
+	top := c.top
+	after := top - off
+	allPresent := after <= uint64(c.kept)
+	for i := range cls {
+		rs := vReplies(trs[i])
+		if len(rs) < 2 || rs[1] == nil || rs[1].Id != 2 || rs[1].Subscribe == nil {
+			vFail("sf: no subscribe reply")
+			return
+		}
+		res := rs[1].Subscribe
+		epochOK := eks[i] != 2
+		vAssert(vImplies(res.Recovered, epochOK), "sf: recovered=true never with a different epoch")
+		vAssert(vImplies(res.Recovered, allPresent), "sf: recovered=true never when a publication after the offset is missing")
+		if !res.Recovered {
+			vAssert(len(res.Publications) == 0, "sf: recovered=false carries no publications")
+		} else {
+			vAssert(uint64(len(res.Publications)) == after, "sf: recovered: number of publications = top - offset")
+			for k, p := range res.Publications {
+				vAssert(p.Offset == off+1+uint64(k), "sf: recovered: consecutive offsets from offset+1")
+			}
+		}
+	}
+	vCover(eks[0] == 1 && eks[1] == 2, "current-epoch-leader-foreign-epoch-follower")
+	vCover(eks[0] == eks[1], "same-epoch")
+}
